@@ -55,12 +55,21 @@ Proof.
 Qed.
 Print Assumptions label_document_roundtrip_refuted.
 
-(* ... and true whenever every byte of every name and value is printable ASCII or one of
-   \b \f \n \r \t (any quotes and backslashes included), for every IsPrint oracle. *)
+(* ... and true on exactly the class of label sets whose names and values consist of printable ASCII
+   (quotes and backslashes included), \b \f \n \r \t, well-formed UTF-8 runes that IsPrint accepts
+   (copied raw) and well-formed non-printable runes below U+10000 (rendered \uXXXX, which is JSON),
+   for every IsPrint oracle. Outside the class (other control bytes, 0x7f, ill-formed UTF-8,
+   non-printable runes from U+10000) the document is not JSON: checked per generated set, not proved. *)
 Theorem label_document_roundtrip_partial : forall isprint ls,
+  labels_json_ok isprint ls = true -> json_decode (encode_labels isprint ls) = Some ls.
+Proof. exact label_document_roundtrip_ok. Qed.
+Print Assumptions label_document_roundtrip_partial.
+
+(* the oracle-free special case: bytes that are printable ASCII or one of \b \f \n \r \t *)
+Theorem label_document_roundtrip_partial_ascii : forall isprint ls,
   labels_safe ls = true -> json_decode (encode_labels isprint ls) = Some ls.
 Proof. exact label_document_roundtrip_safe. Qed.
-Print Assumptions label_document_roundtrip_partial.
+Print Assumptions label_document_roundtrip_partial_ascii.
 
 (* (b) Every acknowledged sample has a successfully inserted series row for its day, in every
    history of pushes (any streams, any insert outcomes) and cache resets: FALSE of the code as it is.
